@@ -39,7 +39,22 @@ var vInstSeq uint64
 var vInstMu sync.Mutex // instance creation touches package globals (Config, defaultServerProtocol): serialise it
 var vNoCheckLoop int32
 
+var vRewriteStarted, vRewriteEnded int64
+var vYieldExtra atomic.Value // func(point int): additional handler installed by an engine (crash images, scheduler)
+
+func vSetYieldExtra(f func(point int)) { vYieldExtra.Store(f) }
+
 func init() {
+	vYieldExtra.Store(func(int) {})
+	VerifYield = func(point int) {
+		switch point {
+		case verifPointAofRewrite:
+			atomic.AddInt64(&vRewriteStarted, 1)
+		case verifPointAofRewrite + 9:
+			atomic.AddInt64(&vRewriteEnded, 1)
+		}
+		vYieldExtra.Load().(func(int))(point)
+	}
 	VerifHook = func(point int) bool {
 		if point == verifPointNoCheckLoop {
 			return atomic.LoadInt32(&vNoCheckLoop) != 0
@@ -164,4 +179,79 @@ func (in *vInst) vCloseSteps(wait bool) {
 	}
 	s.glock.Unlock()
 	s.server = nil
+}
+
+// vWaitRewrite waits until every compaction that was started has returned (hook points 5 / 14 count
+// entries and exits of Aof.rewriteAofFiles) and, if expectAfter >= 0, until at least one finished after
+// that many had finished before. false = watchdog expired (inconclusive, never a verdict).
+func vWaitRewrite(aof *Aof) bool { return vWaitRewriteAfter(-1) }
+
+func vWaitRewriteAfter(endedBefore int64) bool {
+	deadline := time.Now().Add(10 * time.Second)
+	for time.Now().Before(deadline) {
+		st, en := atomic.LoadInt64(&vRewriteStarted), atomic.LoadInt64(&vRewriteEnded)
+		if st == en && (endedBefore < 0 || en > endedBefore) {
+			return true
+		}
+		time.Sleep(100 * time.Microsecond)
+	}
+	return false
+}
+
+func vCopyDir(src, dst string) error {
+	if err := os.MkdirAll(dst, 0755); err != nil {
+		return err
+	}
+	ents, err := os.ReadDir(src)
+	if err != nil {
+		return err
+	}
+	for _, e := range ents {
+		if e.IsDir() {
+			continue
+		}
+		b, err := os.ReadFile(filepath.Join(src, e.Name()))
+		if err != nil {
+			if os.IsNotExist(err) {
+				continue
+			}
+			return err
+		}
+		if err := os.WriteFile(filepath.Join(dst, e.Name()), b, 0644); err != nil {
+			return err
+		}
+	}
+	return nil
+}
+
+// vAofIdle polls until the persistence queue has really drained: every AOF channel queue empty and no
+// channel goroutine active, observed twice in a row (Aof.WaitFlushAofChannel alone can return while a
+// channel is still between pulling a record and writing it). false = watchdog expired.
+func vAofIdle(aof *Aof) bool {
+	deadline := time.Now().Add(10 * time.Second)
+	stable := 0
+	for time.Now().Before(deadline) {
+		_ = aof.WaitFlushAofChannel()
+		busy := atomic.LoadUint32(&aof.channelActiveCount) != 0
+		aof.glock.Lock()
+		chans := append([]*AofChannel{}, aof.channels...)
+		aof.glock.Unlock()
+		for _, ch := range chans {
+			ch.queueGlock.Lock()
+			if ch.queueCount != 0 || !ch.queuePulled {
+				busy = true
+			}
+			ch.queueGlock.Unlock()
+		}
+		if !busy {
+			stable++
+			if stable >= 2 {
+				return true
+			}
+		} else {
+			stable = 0
+		}
+		time.Sleep(50 * time.Microsecond)
+	}
+	return false
 }
